@@ -1,6 +1,7 @@
 /-
 C05 — Selection objectives mean what they say in every decision encoding.
-Property theorems only (helper lemmas: Lemmas/SelectionSum, SelectionCrit, SelectionDef, SelectionFactory).
+Property theorems only (helper lemmas: Lemmas/SelectionSum, SelectionCrit, SelectionDef, SelectionFactory,
+SelectionSpec, SelectionRelabel, SelectionChunk, SelectionRelabelAll).
 
 Model: PybropsModel/Model/Selection.lean.  `latent eps crit decn` transcribes `latentfn` of every class of
 pybrops/breed/prot/sel/prob (criterion families `Crit`: lin = EBV, GEBV, wGEBV, gwGEBV, random, EMBV, UC,
@@ -9,7 +10,9 @@ OHV; ocs; mgr; meh; l1; l2; family; opv; pafd; pau; mogs), `Decn.subset` = the s
 All theorems hold over every linearly ordered field and for every square-root function unless stated.
 -/
 import Mathlib.Analysis.SpecialFunctions.Sqrt
-import PybropsModel.Lemmas.SelectionRelabel
+import PybropsModel.Lemmas.SelectionRelabelAll
+import PybropsModel.Lemmas.SelectionLookAhead
+import PybropsModel.Lemmas.SelectionSpecGB
 set_option autoImplicit false
 set_option linter.unusedSectionVars false
 set_option linter.unusedSimpArgs false
@@ -395,6 +398,68 @@ theorem spec_sound_subset (eps rel abs_ : α) (h : 0 ≤ abs_) (hs : LawfulSqrt 
     exact spec_core_sound rel abs_ h hs cr hv hwf _ (unitShares_length _ _) S l hl
   · exact spec_subset_only_sound eps rel abs_ h cr hwf S hS hne l hl (by simpa using hv) hgb
 
+/- FULL STATEMENT (false of the as-is model, see `gb_nbest_exceeds_selection_counterexample`):
+   theorem spec_sound_subset_gb : ∀ nb S, accepts … (definition (.gb H nb) …) (latent (.gb H nb) (.subset S))
+   (for `nbestfndr > len(x)` the slice start `k - nbestfndr` is negative and Python counts it from the end). -/
+/-- **Spec soundness, genotype builder**, for `nbestfndr ≤ len(x)` (the best founders are taken out of the
+    selected ones): the Spec's "sum of the nbest largest" (descending sort, `take`) is the code's ascending sort and
+    slice `[k - nbest : k]`. -/
+theorem spec_sound_subset_gb_partial (eps rel abs_ : α) (h : 0 ≤ abs_) (H : List (List (List (List α))))
+    (nb : Nat) (S : List Nat) (hk : nb ≤ S.length) (l : List α)
+    (hl : latent eps (.gb H nb) (.subset S) = some l) :
+    accepts rel abs_ (definition (.gb H nb) (unitShares (Crit.gb H nb).ncand S) S) l = true :=
+  spec_gb_sound eps rel abs_ h H nb S hk l hl
+
+example : (2 : Nat) ≤ ([0, 2, 1] : List Nat).length := by decide
+
+/-- with more "best founders" than selected individuals the class does not return the mean of the available best
+    phases: two selected founders with block values 1 and 2, `nbestfndr = 3`: slice `[-1:2]` keeps only the best
+    one (value −2/3), the definition on the two available founders gives −(1+2)/3 = −1 -/
+theorem gb_nbest_exceeds_selection_counterexample (inst : HasSqrt Rat) :
+    latent (mkRat 1 (10 ^ 10)) (.gb [[[[(1 : Rat)]], [[2]]]] 3) (.subset [0, 1]) = some [mkRat (-2) 3] ∧
+    accepts (0 : Rat) 0 (definition (.gb [[[[(1 : Rat)]], [[2]]]] 3) [1/2, 1/2] [0, 1]) [mkRat (-2) 3] = false := by
+  constructor
+  · show some (gbSubset [[[[(1 : Rat)]], [[2]]]] 3 [0, 1]) = some [mkRat (-2) 3]
+    decide +kernel
+  · decide +kernel
+
+/-- **The Spec is as strong as the model (vector classes).**  With zero tolerance `Selection.Spec.definition`
+    accepts exactly one vector — the model's latent vector: the oracle evaluated on the implementation's output
+    demands the criterion's definition, nothing weaker. -/
+theorem spec_exact_iff_vec (eps : α) (hs : LawfulSqrt α) (cr : Crit α) (hv : cr.hasVec = true)
+    (hwf : cr.WellFormed) (x : List α) (hx : x.length = cr.ncand) (hg : cr.guarded = true → eps ≤ |Np.sum x|)
+    (supp : List Nat) (l : List α) (hl : latent eps cr (.vec x) = some l) (l' : List α) :
+    accepts 0 0 (definition cr (x.map fun v => v / Np.sum x) supp) l' = true ↔ l' = l := by
+  have hsound := spec_sound_vec eps 0 0 (le_refl 0) hs cr hv hwf x hx hg supp l hl
+  exact ⟨fun h => accepts_exact_unique _ l' l h hsound, fun h => h ▸ hsound⟩
+
+/-- the same for the subset classes (genotype builder: `nbestfndr ≤ len(x)`, see below) -/
+theorem spec_exact_iff_subset (eps : α) (hs : LawfulSqrt α) (cr : Crit α) (hwf : cr.WellFormed)
+    (hgb : ∀ H nb, cr ≠ .gb H nb) (S : List Nat) (hnd : S.Nodup) (hne : S ≠ []) (hS : ∀ i ∈ S, i < cr.ncand)
+    (l : List α) (hl : latent eps cr (.subset S) = some l) (l' : List α) :
+    accepts 0 0 (definition cr (unitShares cr.ncand S) S) l' = true ↔ l' = l := by
+  have hsound := spec_sound_subset eps 0 0 (le_refl 0) hs cr hwf hgb S hnd hne hS l hl
+  exact ⟨fun h => accepts_exact_unique _ l' l h hsound, fun h => h ▸ hsound⟩
+
+/-- **Contract oracle `c05.spec_factor`** (`Selection.Spec.factorOk`, evaluated on every kinship factor a factory
+    returns): it accepts the exact Gram matrix `CᵀC` for every tolerance ≥ 0, … -/
+theorem spec_factor_sound (rel abs_ : α) (h : 0 ≤ abs_) (C : List (List α)) :
+    factorOk rel abs_ C (gram C) = true :=
+  factorOk_self rel abs_ h C
+
+/-- … with zero tolerance it accepts nothing else, … -/
+theorem spec_factor_exact_iff (C K : List (List α)) : factorOk 0 0 C K = true ↔ K = gram C :=
+  ⟨factorOk_exact C K, fun h => h ▸ factorOk_self 0 0 (le_refl 0) C⟩
+
+/-- … and what it certifies is what the criteria need: `‖C c‖² = cᵀ K c` (the first latent component of the
+    optimal-contribution / mean-relationship / heterozygosity / L2 classes is the root of this) -/
+theorem spec_factor_gives_norm (C K : List (List α)) (c : List α) (hrect : ∀ r ∈ C, r.length = c.length)
+    (hne : C ≠ []) (h : factorOk 0 0 C K = true) :
+    normSq (matVec C c) = ∑ i ∈ range c.length, ∑ j ∈ range c.length, vget c i * ent K i j * vget c j :=
+  factor_contract_norm C K c hrect hne h
+
+example : factorOk (0:ℚ) 0 [[2, 1], [0, 3]] [[4, 2], [2, 10]] = true := by decide +kernel
+
 example : LawfulSqrt ℝ := fun q hq => ⟨Real.sqrt_nonneg q, Real.mul_self_sqrt hq⟩
 example : (Crit.ocs [[(2:ℚ), 1], [0, 3]] [[1, 2], [3, 4]]).WellFormed ∧
     (Crit.pau [[(2:ℚ), 0], [2, 0]] 2 [[1], [10]] [[1], [0]]).WellFormed := by
@@ -544,6 +609,175 @@ theorem opv_eq_neg_ohv (eps : α) (H : List (List (List (List α)))) (S : List N
   ring
 
 end factories
+
+/-! ### round 3: the chunk loop of `_calc_ohvmat`, the EMBV matrix factory, taxa order for every criterion -/
+section round3
+variable {α : Type} [Field α] [LinearOrder α] [IsStrictOrderedRing α] [HasSqrt α]
+
+/-- **Chunk invariance of `_calc_ohvmat`.**  The loop over memory chunks
+    `zip(range(0,n,step), srange(step,n,step))` with `out[rst:rsp] = …(xmap[rst:rsp])`, transcribed literally
+    (`calcOhvmatChunked`), returns the closed form `ploidy · Σ_blocks max_{parents, phases}` for every admissible
+    chunk size: `mem = None` with a non-empty cross map, or any `mem ≥ 1` (1024 in the factories) — whatever
+    the number of crosses. -/
+theorem ohvmat_chunk_invariant (mem : Option Nat) (H : List (List (List (List α)))) (xmap : List (List Nat))
+    (hstep : 0 < mem.getD xmap.length) :
+    calcOhvmatChunked mem H xmap = some (calcOhvmat H xmap) :=
+  calcOhvmatChunked_eq mem H xmap hstep
+
+/-- two admissible chunk sizes give the same table -/
+theorem ohvmat_chunk_size_irrelevant (mem mem' : Option Nat) (H : List (List (List (List α))))
+    (xmap : List (List Nat)) (h : 0 < mem.getD xmap.length) (h' : 0 < mem'.getD xmap.length) :
+    calcOhvmatChunked mem H xmap = calcOhvmatChunked mem' H xmap := by
+  rw [calcOhvmatChunked_eq mem H xmap h, calcOhvmatChunked_eq mem' H xmap h']
+
+/-- the inadmissible sizes are rejected (Python: `range() arg 3 must not be zero`), not defaulted -/
+theorem ohvmat_chunk_zero_step_rejected (mem : Option Nat) (H : List (List (List (List α))))
+    (xmap : List (List Nat)) (h : mem.getD xmap.length = 0) : calcOhvmatChunked mem H xmap = none :=
+  calcOhvmatChunked_none mem H xmap h
+
+example : (0 < (some 1024 : Option Nat).getD ([[0, 1], [0, 2], [1, 2]] : List (List Nat)).length) ∧
+    (0 < (none : Option Nat).getD ([[0, 1], [0, 2], [1, 2]] : List (List Nat)).length) := by decide
+example : calcOhvmatChunked (some 2) [[[[(1:ℚ)]], [[3]], [[2]]], [[[0]], [[1]], [[5]]]] [[0, 1], [0, 2], [1, 2]]
+    = some [[6], [10], [10]] := by decide +kernel
+
+/-- **EMBV matrix factory** (`DenseExpectedMaximumBreedingValueMatrix.from_gmod`, per-taxon `nrep` / `nprogeny`
+    arrays, doubled-haploid simulation scripted): row `i` is the mean, over the taxon's OWN `nrep[i]` replicates,
+    of the per-trait maximum over the breeding values of that replicate's progeny. -/
+theorem embvmat_row_def (nrep : List Nat) (prog : List (List (List (List α)))) (ntrait i : Nat)
+    (hi : i < prog.length) :
+    (embvMat nrep prog ntrait).getD i [] = (List.range ntrait).map fun t =>
+      ((((prog.getD i []).take (nrep.getD i 0)).map fun rep => maxL (rep.map fun r => vget r t)).sum)
+        / ((nrep.getD i 0 : Nat) : α) :=
+  embvMat_row nrep prog ntrait i hi
+
+/-- … so it does not depend on any other taxon's progeny or replicate count, nor on replicates beyond `nrep[i]` -/
+theorem embvmat_row_local (nrep nrep' : List Nat) (prog prog' : List (List (List (List α)))) (ntrait i : Nat)
+    (hi : i < prog.length) (hi' : i < prog'.length) (hn : nrep.getD i 0 = nrep'.getD i 0)
+    (hp : (prog.getD i []).take (nrep.getD i 0) = (prog'.getD i []).take (nrep.getD i 0)) :
+    (embvMat nrep prog ntrait).getD i [] = (embvMat nrep' prog' ntrait).getD i [] :=
+  embvMat_row_local nrep nrep' prog prog' ntrait i hi hi' hn hp
+
+/-- **Homozygous line: EMBV = GEBV.**  If every simulated doubled haploid of taxon `i` has the line's own
+    breeding values `g` (a fully homozygous line reproduces itself), its EMBV row is `g` for every positive
+    replicate count and every positive progeny count. -/
+theorem embvmat_homozygous_is_gebv (nrep : List Nat) (prog : List (List (List (List α)))) (ntrait i : Nat)
+    (hi : i < prog.length) (g : List α) (hg : g.length = ntrait) (hn : 0 < nrep.getD i 0)
+    (hlen : nrep.getD i 0 ≤ (prog.getD i []).length)
+    (hrep : ∀ rep ∈ prog.getD i [], rep ≠ [] ∧ ∀ r ∈ rep, r = g) :
+    (embvMat nrep prog ntrait).getD i [] = g :=
+  embvMat_homozygous nrep prog ntrait i hi g hg hn hlen hrep
+
+example : embvMat [3, 1] [[[[(1:ℚ), 2], [0, 7]], [[3, 6], [2, 5]], [[-4, 0], [8, 1]]], [[[5, 1], [4, 1], [0, 9]]]] 2
+    = [[4, 14/3], [5, 9]] := by decide +kernel
+example : (1 : Nat) < [[[[(4:ℚ), 1]], [[4, 1], [4, 1]]], [[[0, 0]]]].length ∧ ([(4:ℚ), 1]).length = 2 ∧
+    0 < ([2, 1] : List Nat).getD 0 0 := by decide
+
+/-- **Taxa relabelling, subset classes, EVERY criterion family** (linear criteria, L1, family, optimal population
+    value, genotype builder, allele-frequency distance / unavailability / multi-objective, and the kinship ones):
+    moving the data of candidate `π i` to position `i` and listing the subset by the new positions gives the latent
+    vector of the original problem at the original indices. -/
+theorem taxa_relabel_subset (eps : α) (π : List Nat) (cr : Crit α) (hv : RelabelValid π cr) (S : List Nat)
+    (hS : ∀ i ∈ S, i < π.length) (hne : S ≠ []) :
+    latent eps (relabelAll π cr) (.subset S) = latent eps cr (.subset (S.map fun i => π.getD i 0)) :=
+  latent_relabelAll_subset eps π cr hv S hS hne
+
+/-- **Taxa relabelling, real / integer / binary classes, every criterion that has them**: for a permutation `π`
+    of the candidates the relabelled problem at the relabelled decision vector `x[π]` has the latent vector of the
+    original. -/
+theorem taxa_relabel_vec (eps : α) (π : List Nat) (cr : Crit α) (x : List α)
+    (hπ : π.Perm (List.range x.length)) (hv : RelabelValidVec x.length cr) :
+    latent eps (relabelAll π cr) (.vec (Np.take π x)) = latent eps cr (.vec x) :=
+  latent_relabelAll_vec eps π cr x hπ hv
+
+example : RelabelValid (α := ℚ) [2, 0, 1] (.pau [[2, 0], [1, 1], [0, 2]] 2 [[1], [3]] [[1], [0]]) ∧
+    RelabelValid (α := ℚ) [2, 0, 1] (.family [[1, 2], [3, 4], [5, 7]] [1, 0, 1] 2) ∧
+    RelabelValidVec (α := ℚ) 3 (.family [[1, 2], [3, 4], [5, 7]] [1, 0, 1] 2) := by
+  have hrect : ∀ r ∈ ([[1, 2], [3, 4], [5, 7]] : List (List ℚ)), r.length = 2 := by
+    intro r hr; simp at hr; rcases hr with rfl | rfl | rfl <;> rfl
+  refine ⟨?_, ⟨?_, ⟨2, hrect⟩, ?_, ?_⟩, rfl, ⟨2, hrect⟩, rfl⟩
+  · show ∀ p ∈ ([2, 0, 1] : List Nat), p < 3
+    decide
+  · show ∀ p ∈ ([2, 0, 1] : List Nat), p < 3
+    decide
+  · show ∀ p ∈ ([2, 0, 1] : List Nat), p < 3
+    decide
+  · show ([2, 0, 1] : List Nat).Nodup
+    decide
+
+/-- **Factory data follow the taxa**: the L1 marker-deviation tensor `_calc_V`, the haplotype tensor
+    `_calc_haplomat` and the EMBV matrix of a re-ordered population are the re-ordered tensors / matrix of the
+    original population. -/
+theorem factory_taxon_order_l1 (mk ta tf : List (List α)) (π : List Nat) (hta : ∀ p ∈ π, p < ta.length) :
+    calcV mk (Np.take π ta) tf = (calcV mk ta tf).map fun Vt => Vt.map (Np.take π) :=
+  calcV_take mk ta tf π hta
+
+theorem factory_taxon_order_haplomat (mat : List (List (List α))) (u : List (List α)) (bounds : List (Nat × Nat))
+    (π : List Nat) :
+    calcHaplomat (mat.map (Np.take π)) u bounds = (calcHaplomat mat u bounds).map (Np.take π) :=
+  calcHaplomat_take mat u bounds π
+
+theorem factory_taxon_order_embvmat (nrep : List Nat) (prog : List (List (List (List α)))) (ntrait : Nat)
+    (π : List Nat) (hp : ∀ p ∈ π, p < prog.length) (hn : ∀ p ∈ π, p < nrep.length) :
+    embvMat (Np.take π nrep) (Np.take π prog) ntrait = Np.take π (embvMat nrep prog ntrait) :=
+  embvMat_take nrep prog ntrait π hp hn
+
+/-- **Cross tables follow the cross map and the taxa**: row `i` of the optimal-haploid-value table belongs to
+    cross `xmap[i]` (re-ordering / selecting crosses re-orders / selects rows), and re-ordering the taxa while
+    naming the parents by their new positions changes nothing; the same for the usefulness criterion. -/
+theorem ohvmat_follows_xmap (H : List (List (List (List α)))) (xmap : List (List Nat)) (is : List Nat) :
+    calcOhvmat H (Np.take is xmap) = Np.take is (calcOhvmat H xmap) :=
+  calcOhvmat_take H xmap is
+
+theorem embv_follows_xmap (nrep : Nat) (tmaxs : List (List (List α))) (ntrait : Nat) (is : List Nat) :
+    calcEmbv nrep (Np.take is tmaxs) ntrait = Np.take is (calcEmbv nrep tmaxs ntrait) :=
+  calcEmbv_take nrep tmaxs ntrait is
+
+theorem ohvmat_taxa_relabel (H : List (List (List (List α)))) (xmap : List (List Nat)) (π : List Nat) (hπ : π ≠ [])
+    (hH : ∀ Hp ∈ H, ∀ p ∈ π, p < Hp.length) (hx : ∀ cc ∈ xmap, ∀ i ∈ cc, i < π.length) (nb nt : Nat)
+    (hr : Rect4 H nb nt) :
+    calcOhvmat (H.map (Np.take π)) xmap = calcOhvmat H (xmap.map fun cc => cc.map fun i => π.getD i 0) :=
+  calcOhvmat_relabel H xmap π hπ hH hx nb nt hr
+
+theorem uc_taxa_relabel (epgc : List α) (bv : List (List α)) (intensity : α) (xmap : List (List Nat))
+    (pvar : List (List α)) (π : List Nat) (hπ : π ≠ []) (hbv : ∀ p ∈ π, p < bv.length)
+    (hx : ∀ cc ∈ xmap, ∀ i ∈ cc, i < π.length) (t : Nat) (hrect : ∀ r ∈ bv, r.length = t) :
+    calcUc epgc (Np.take π bv) intensity xmap pvar
+      = calcUc epgc bv intensity (xmap.map fun cc => cc.map fun i => π.getD i 0) pvar :=
+  calcUc_relabel epgc bv intensity xmap pvar π hπ hbv hx t hrect
+
+example : Rect4 (α := ℚ) [[[[1], [2]], [[3], [4]]], [[[0], [5]], [[6], [1]]]] 2 1 ∧
+    (∀ Hp ∈ ([[[[1], [2]], [[3], [4]]], [[[0], [5]], [[6], [1]]]] : List (List (List (List ℚ)))),
+      ∀ p ∈ ([1, 0] : List Nat), p < Hp.length) := by
+  constructor
+  · intro Hp hHp g hg
+    simp at hHp
+    rcases hHp with rfl | rfl <;> simp at hg <;> rcases hg with rfl | rfl <;> simp
+  · intro Hp hHp p hp
+    simp at hHp hp
+    rcases hHp with rfl | rfl <;> rcases hp with rfl | rfl <;> simp
+
+/-- **Look-ahead class, selection step** (`sel = wgebv.argsort()[::-1][:nparent]` of
+    RealLookAheadGeneralizedWeightedGenomicSelectionProblem): `nparent` distinct valid indices (all candidates when
+    there are fewer), and no unselected candidate has a higher weighted breeding value than a selected one. -/
+theorem lookahead_selects_topk (scores : List α) (k : Nat) :
+    (laSelect scores k).Nodup ∧ (∀ i ∈ laSelect scores k, i < scores.length) ∧
+    (laSelect scores k).length = min k scores.length ∧
+    ∀ i ∈ laSelect scores k, ∀ j, j < scores.length → j ∉ laSelect scores k →
+      scores.getD j 0 ≤ scores.getD i 0 :=
+  laSelect_topk scores k
+
+/-- **Look-ahead class, latent vector**: minus the mean over the simulations of the last generation's mean
+    genotypic value, and minus the mean over the simulations of its upper-selection-limit term. -/
+theorem lookahead_latent_def (ploidy : Nat) (u : List (List α)) (finals : List (List (List α))) :
+    laLatent ploidy u finals =
+      [-((finals.map fun Z => laGain Z u).sum / ((finals.length : Nat) : α)),
+       -((finals.map fun Z => laUsl ploidy Z u).sum / ((finals.length : Nat) : α))] := by
+  unfold laLatent
+  simp only [foldl_add_eq_sum, zero_add]
+
+example : laSelect [(3:ℚ), 7, 1, 5] 2 = [1, 3] := by decide +kernel
+
+end round3
 
 /-! ### the guarded weights of the (generalised) weighted breeding values -/
 section guards
